@@ -53,6 +53,13 @@ def items(tier: str) -> List[Any]:
         if s not in seen:
             seen.add(s)
             out.append(("shuffle", "RekeyTo", s))
+    # soundness-only: loops that really iterate (counter conditions)
+    for field in ("RekeyTo", "Sender") if tier == "quick" else FIELDS:
+        _, small = alphabets(tier, field)
+        for s in spaces.counted_loops(small[:2] + [[f"txn {field}", f"addr {A.LIT1}", "!="]], tier):
+            if s not in seen:
+                seen.add(s)
+                out.append(("shuffle", field, s))
     from mc.gen import raw  # pylint: disable=import-outside-toplevel
 
     for atom in [["txn RekeyTo", "global ZeroAddress", "=="], ["txn RekeyTo", f"addr {A.LIT1}", "!="]]:
